@@ -98,7 +98,7 @@ def check(ctx):
                 if not ok:
                     ctx.fail("oracle", f"C11/oracle/solver/{name}", f"{P.sc['name']} orders {orders}: fc{m} changes by {err:.2e} (relative) with {name}={kw}", replay={**rep, "setting": {name: {k: int(v) for k, v in kw.items()}}}, has_input=True)
     # ---------------- basis: combination batches, sum-rule batches, eigen threshold, one object vs separate
-    cells = [("tri1", (2, 2, 1)), ("tri2_P1", (2, 1, 1)), ("hcp", (1, 1, 1))] + ([] if ctx.quick else [("mono_P", (2, 1, 1)), ("tri1", (2, 2, 2)), ("ortho_C", (1, 1, 2))])
+    cells = [("tri1", (2, 2, 1)), ("tri2_P1", (2, 1, 1)), ("hcp", (1, 1, 1)), ("tri2_P1", (3, 1, 1))] + ([] if ctx.quick else [("mono_P", (2, 1, 1)), ("tri1", (2, 2, 2)), ("ortho_C", (1, 1, 2))])
     for cname, diag in cells:
         sc = make_supercell(base_cells()[cname], diag, rng=rng, shuffle=True)
         N = len(sc["numbers"])
